@@ -124,7 +124,7 @@ void childHangHandler(int) { _exit(78); }
 Outcome runIsolated(const Harness* h, const Plan& p, bool trace = false, std::string* traceOut = nullptr) {
   Outcome o;
   SharedProgress* sp = static_cast<SharedProgress*>(mmap(nullptr, 4096, PROT_READ | PROT_WRITE, MAP_SHARED | MAP_ANONYMOUS, -1, 0));
-  sp->step = -1; sp->hash = 0; sp->okSteps = 0;
+  sp->step = -1; sp->hash = 0; sp->okSteps = 0; sp->tag[0] = 0;
   int pfd[2]; if (pipe(pfd) != 0) { perror("pipe"); exit(2); }
   std::string errFile = g_tmpDir + "/stderr." + std::to_string(getpid());
   fflush(stdout); fflush(stderr);
@@ -165,6 +165,7 @@ Outcome runIsolated(const Harness* h, const Plan& p, bool trace = false, std::st
   } else {
     o.violated = true; o.step = sp->step; o.hash = sp->hash; o.okSteps = sp->okSteps;
     std::string opk = (o.step >= 0 && o.step < static_cast<long>(p.ops.size())) ? p.ops[static_cast<size_t>(o.step)].k : "setup";
+    { char tg[sizeof sp->tag]; std::memcpy(tg, sp->tag, sizeof tg); tg[sizeof tg - 1] = 0; if (tg[0]) opk += std::string(":") + tg; }
     if (WIFEXITED(st) && WEXITSTATUS(st) == 78) { o.cls = "hang"; o.sig = "hang:" + opk; o.detail = "no return within " + std::to_string(g_cpuLimit) + " CPU-seconds"; }
     else if (WIFEXITED(st) && WEXITSTATUS(st) == 77) {
       std::string err = readFile(errFile);
